@@ -378,7 +378,9 @@ Trigger(C, d, fdef, args) ==
          \/ \E i \in 1..Len(args) : HasName(fdef.args, args[i].name)
                /\ Somewhere([C EXCEPT !.supplied = <<>>], "enumstr", ByName(fdef.args, args[i].name).ty, args[i].val)
          \/ \E i \in 1..Len(C.vdefs) : C.vdefs[i].hasDefault /\ Somewhere(C, "enumstr", C.vdefs[i].ty, C.vdefs[i].default)
-    [] d = "DevNonObjectForInputObject" -> C.flavour = "dynamic" /\ AnyArg(C, "nonobj", fdef, args)
+    [] d = "DevNonObjectForInputObject" -> \* validation lets it pass everywhere; only a dynamic resolver or an unused variable default shows it
+         \/ C.flavour = "dynamic" /\ AnyArg(C, "nonobj", fdef, args)
+         \/ \E i \in 1..Len(C.vdefs) : C.vdefs[i].hasDefault /\ Somewhere(C, "nonobj", C.vdefs[i].ty, C.vdefs[i].default)
     [] d = "DevDynNoListCoercion" -> C.flavour = "dynamic" /\ AnyArg(C, "single", fdef, args)
     [] d = "DevDynNoFieldDefaults" -> C.flavour = "dynamic" /\ AnyArg(C, "nodefault", fdef, args)
     [] OTHER -> FALSE
